@@ -2,6 +2,7 @@ import Pymc.Model.Bytes
 import Pymc.Model.Murmur3
 import Pymc.Model.Retrying
 import Pymc.Model.Fallback
+import Pymc.Model.FallbackHist
 import Pymc.Model.Key
 import Pymc.Model.Rendezvous
 import Pymc.Model.Readers
@@ -92,6 +93,109 @@ def handleFallback (ws : List String) : Option String := do
     if mode = "single" then a ≠ "N" else a.startsWith "H"
   let (r, n) := Fallback.firstHit hit answers
   pure s!"ok result={r.getD "FALLTHROUGH"} consulted={n}"
+
+/-! ### C17, several calls on one client
+`retrycalls attempts=<int> rfk=<kind> rf=<ids> dnrk=<kind> dnr=<ids> exc=<ids> dirm=<method ids listed by dir()> sub=<pairs>
+calls=<method>@<script>;<method>@<script>;…` → `ok ValueError` or `ok <run>|<run>|…`, `<run>` = `res=…,inv=…,sleeps=…`
+(the object is built by `Retrying.construct`, the history is run by `Retrying.runCalls`) -/
+def parseMCall (s : String) : Option Retrying.MCall :=
+  match s.splitOn "@" with
+  | [m, scr] => do
+    let script ← if scr = "-" then some [] else (scr.splitOn ",").mapM parseOutcome
+    pure ⟨← m.toNat?, script⟩
+  | _ => none
+
+def handleRetryCalls (ws : List String) : Option String := do
+  let att ← (← arg ws "attempts").toInt?
+  let rfk ← parseKind (← arg ws "rfk")
+  let rf ← natList (← arg ws "rf")
+  let dk ← parseKind (← arg ws "dnrk")
+  let dnr ← natList (← arg ws "dnr")
+  let exc ← natList (← arg ws "exc")
+  let dirm ← natList (← arg ws "dirm")
+  let sub ← parsePairs (← arg ws "sub")
+  let cs ← arg ws "calls"
+  let calls ← if cs = "-" then some [] else (cs.splitOn ";").mapM parseMCall
+  let a : Retrying.CtorArgs := ⟨att, rfk, rf, dk, dnr, fun c => exc.contains c⟩
+  match Retrying.construct a dirm (fun c k => c = k || sub.contains (c, k)) with
+  | none => pure "ok ValueError"
+  | some o =>
+    let runs := (Retrying.runCalls o calls).2
+    pure ("ok " ++ "|".intercalate (runs.map fun r => s!"res={showResult r.result},inv={r.invocations},sleeps={r.sleeps}"))
+
+/-! ### C18, histories on one FallbackClient
+`fallbackhist init=<caches> ops=<op>;<op>;…`
+`<caches>` = `-` (empty list) or `<cache>+<cache>+…`, `<cache>` = `<id>/<g><s><m><n>`: the answers to get, gets, get_many, gets_many,
+each `N` (None), `E` (falsy, not None) or `H` (truthy).
+`<op>` = `get:<arg>` `gets:<arg>` `get_many:<arg>` `gets_many:<arg>` | `<write>:<a1>,<a2>,…` (one entry per parameter, `-` = left out by
+the caller) | `close` | `quit` | `stats` | `setc:<caches>`.
+→ `ok steps=<step>|<step>|… caches=<ids>`, `<step>` = `<calls>=><result>`, `<calls>` = `-` or `<id>.<method>(<a1>,<a2>,…)+…`,
+`<result>` = `None` `[]` `E` `H<id>` `TypeError` `IndexError`. -/
+def parseHAns (id : Nat) : Char → Option FallbackHist.Ans
+  | 'N' => some .none
+  | 'E' => some (.falsy id)
+  | 'H' => some (.truthy id)
+  | _ => none
+
+def parseHCache (s : String) : Option FallbackHist.Cache :=
+  match s.splitOn "/" with
+  | [i, ks] => do
+    let id ← i.toNat?
+    match ks.toList with
+    | [a, b, c, d] => do
+      let a ← parseHAns id a
+      let b ← parseHAns id b
+      let c ← parseHAns id c
+      let d ← parseHAns id d
+      pure ⟨id, fun k _ => match k with | .get => a | .gets => b | .getMany => c | .getsMany => d⟩
+    | _ => none
+  | _ => none
+
+def parseHCaches (s : String) : Option (List FallbackHist.Cache) :=
+  if s = "-" then some [] else (s.splitOn "+").mapM parseHCache
+
+def parseHWrite : String → Option FallbackHist.WriteKind
+  | "set" => some .set | "add" => some .add | "replace" => some .replace | "append" => some .append
+  | "prepend" => some .prepend | "cas" => some .cas | "delete" => some .delete | "incr" => some .incr
+  | "decr" => some .decr | "touch" => some .touch | "flush_all" => some .flushAll | _ => none
+
+def parseHOp (s : String) : Option FallbackHist.Op :=
+  match s.splitOn ":" with
+  | ["close"] => some .close
+  | ["quit"] => some .quit
+  | ["stats"] => some .stats
+  | ["setc", l] => (parseHCaches l).map .setCaches
+  | ["get", a] => some (.read .get [a])
+  | ["gets", a] => some (.read .gets [a])
+  | ["get_many", a] => some (.read .getMany [a])
+  | ["gets_many", a] => some (.read .getsMany [a])
+  | [w, as] => do
+    let m ← parseHWrite w
+    pure (.write m ((as.splitOn ",").map fun t => if t = "-" then none else some t))
+  | _ => none
+
+def showHResult : FallbackHist.Result → String
+  | .none => "None"
+  | .emptyList => "[]"
+  | .answer .none => "N"
+  | .answer (.falsy _) => "E"
+  | .answer (.truthy v) => s!"H{v}"
+  | .typeError => "TypeError"
+  | .indexError => "IndexError"
+
+def showHOut (o : FallbackHist.Out) : String :=
+  let calls := if o.log.isEmpty then "-" else
+    "+".intercalate (o.log.map fun c => s!"{c.cache}.{c.method}({",".intercalate c.args})")
+  s!"{calls}=>{showHResult o.result}"
+
+def handleFallbackHist (ws : List String) : Option String := do
+  let s0 ← parseHCaches (← arg ws "init")
+  let os ← arg ws "ops"
+  let ops ← if os = "-" then some [] else (os.splitOn ";").mapM parseHOp
+  let (s, outs) := FallbackHist.run s0 ops
+  let steps := if outs.isEmpty then "-" else "|".intercalate (outs.map showHOut)
+  let ids := if s.isEmpty then "-" else ",".intercalate (s.map fun c => toString c.id)
+  pure s!"ok steps={steps} caches={ids}"
 
 /-! ### C20 / C02 -/
 def parseKey (s : String) : Option Key.K :=
@@ -915,6 +1019,8 @@ def handle (ws : List String) : String :=
     | "retry" :: rest => handleRetry rest
     | "retryctor" :: rest => handleRetryCtor rest
     | "fallback" :: rest => handleFallback rest
+    | "fallbackhist" :: rest => handleFallbackHist rest
+    | "retrycalls" :: rest => handleRetryCalls rest
     | "checkkey" :: rest => handleCheckKey rest false
     | "checkkey-orig" :: rest => handleCheckKey rest true
     | "splitws" :: rest => handleSplitWs rest
